@@ -58,12 +58,15 @@ def run(ctx):
     isin = N.mk_cmp("in", OBJ, allowed)
     rais = [p for p in paths if p.outcome[0] == "raise" and p.outcome[1].get("cls") == "ConstError"]
     rets = [p for p in paths if p.returns]
-    ctx.ob("C13.R1", fi, len(rais) >= 1 and all(notin in guard_set(p) for p in rais) and all(not p.of("SUB", "WRITE") for p in rais),
+    # whatever the spelling (`obj not in (None, value)`, nested ifs, a shared helper): the raising paths are feasible only for an object that
+    # is neither None nor equal to the constant, the returning paths only for one that is
+    ctx.ob("C13.R1", fi, len(rais) >= 1 and all(none_or_equal_cases(p.guards(), OBJ, value) == {(False, False)} for p in rais) and all(not p.of("SUB", "WRITE") for p in rais),
            "Const._build refuses any supplied value outside (None, value) before writing anything", key="build raise polarity")
     good = bool(rets)
     for p in rets:
         subs = p.of("SUB")
-        good = good and isin in guard_set(p) and len(subs) == 1 and subs[0]["m"] == "_build" and subs[0]["target"] == subcon \
+        cases = none_or_equal_cases(p.guards(), OBJ, value)
+        good = good and bool(cases) and (False, False) not in cases and len(subs) == 1 and subs[0]["m"] == "_build" and subs[0]["target"] == subcon \
             and subs[0]["obj"] == value and p.retval == subs[0]["res"]
     ctx.ob("C13.R1", fi, good, "Const._build always emits the encoding of self.value (never of obj) and returns the sub-build result", key="build value")
     fi, paths = own_method_paths(ctx, "Const", "__init__")
